@@ -326,6 +326,53 @@ def shard_variants(spec):
     return acc
 
 
+# ------------------------------------------------------------------ a label larger than any buffer or window
+
+def big_label():
+    lines = ['k%04d = "%s"' % (i, "x" * 66) for i in range(3800)]       # ~300 KiB before END
+    text = "\n".join(lines) + "\nlast = 1\nEND\n"
+    items = [("k%04d" % i, "x" * 66) for i in range(3800)] + [("last", 1)]
+    return text, items
+
+
+def shard_big(spec):
+    """one entry point per shard (each load takes a second): the label of ~300 KiB, with and without an
+    undecodable tail, must come back whole through every entry point"""
+    entry_name, tailname = spec
+    acc = Acc()
+    text, items = big_label()
+    want = T.loose(impl.PVLModule(items))
+    tail = {"none": b"", "binary": b"\xff\xfe\x00\x01" * 500}[tailname]
+    data = text.encode("utf-8") + tail
+    tmpdir = tempfile.mkdtemp(prefix="c09b_")
+    try:
+        for name, thunk in entries(data, tmpdir, 8192):
+            if name != entry_name:
+                continue
+            case = {"kind": "big", "entry": name, "tail": tailname}
+            acc.n += 1
+            try:
+                got = T.loose(thunk())
+            except Exception as e:  # noqa: BLE001
+                acc.violation(case, "entry-point-raises:" + name, "%s: %s" % (type(e).__name__, str(e)[:150]),
+                              sig="big-raises|%s|%s" % (name, tailname))
+                continue
+            if got != want:
+                acc.violation(case, "entry-points-disagree:" + name,
+                              "a label of %d bytes came back with %d of %d statements"
+                              % (len(text), len(got) - 1, len(items)), sig="big-differs|%s|%s" % (name, tailname))
+                continue
+            acc.nontrivial += 1
+            acc.outcomes["big-ok:" + name] += 1
+    finally:
+        shutil.rmtree(tmpdir, ignore_errors=True)
+    return acc
+
+
+BIG_ENTRIES = ["str-path", "Path", "file-url", "text-stream", "binary-stream", "BytesIO", "short-read-stream",
+               "short-read-text-stream", "bytes", "str", "StringIO"]
+
+
 def check_load(label, sep, tailname, tail, chunk, tmpdir, acc):
     import pvl
     items = dict(_labels())[label]
@@ -486,6 +533,8 @@ def run(ctx):
     specs = [(li, sep, q) for li in range(len(LABELS)) for sep in seps]
     ctx.pmap(shard_load, specs, into=acc)
     ctx.pmap(shard_variants, [(fn, kn) for fn in FILE_NAMES for kn, _ in kwarg_sets()], into=acc)
+    ctx.pmap(shard_big, [(e, t) for e in BIG_ENTRIES for t in ("none", "binary")
+                         if not (t == "binary" and e in ("str", "StringIO", "text-stream", "short-read-text-stream"))], into=acc)
     ctx.pmap(shard_dump, [(mi, e) for mi in range(len(dump_modules())) for e in ["default"] + list(impl.ENCODERS)],
              into=acc)
     cov = {
@@ -494,7 +543,7 @@ def run(ctx):
                 "every k around each chunk boundary of 7/64/8192 (thorough: every k < 140 and +/-5 around 7/16/64/4096/8192), NULs, valid UTF-8, truncated multi-byte, second "
                 "label, garbage, open quote/comment, long ASCII run) x entry points (str path, Path, file: URL, text "
                 "stream, binary stream, BytesIO, short-read raw stream in binary and text mode, bytes, str, StringIO) "
-                "x chunk sizes %r (stream entries only); variants: %d file names (blanks, '#', '%%', '?', '[', non-ASCII, sub-directories) x %d keyword-argument sets (decoder with a Decimal real class, container classes, grammar+decoder, explicit parser) x 16 ways of naming the data (str, bytes, str path, Path, a non-pathlib os.PathLike, os.DirEntry, file: URL with and without host, streams, streams positioned behind a header by seek or read) x {no tail, binary tail, a tail that is UTF-8 but outside every strict character set}, every result compared type-strictly; dump: %d modules x 5 encoders x 6 targets; non-trivial = "
+                "x chunk sizes %r (stream entries only); variants: %d file names (blanks, '#', '%%', '?', '[', non-ASCII, sub-directories) x %d keyword-argument sets (decoder with a Decimal real class, container classes, grammar+decoder, explicit parser) x 16 ways of naming the data (str, bytes, str path, Path, a non-pathlib os.PathLike, os.DirEntry, file: URL with and without host, streams, streams positioned behind a header by seek or read) x {no tail, binary tail, a tail that is UTF-8 but outside every strict character set}, every result compared type-strictly; one label of ~300 KiB (3800 statements) through every entry point with and without a binary tail; dump: %d modules x 5 encoders x 6 targets; non-trivial = "
                 "module equal to the label's module and the last token requested was END / written bytes equal "
                 "dumps() and the length reported" % (len(LABELS), len(seps), CHUNKS if q else CHUNKS_THOROUGH,
                                                     len(FILE_NAMES), len(kwarg_sets()), len(dump_modules())),
@@ -510,6 +559,8 @@ def run(ctx):
 
 def replay(case):
     acc = Acc()
+    if case["kind"] == "big":
+        return shard_big((case["entry"], case["tail"])).violations
     if case["kind"] == "variant":
         a = shard_variants((case["file_name"], case["kwargs"]))
         return [v for v in a.violations if v["case"]["entry"] == case["entry"] and v["case"]["tail"] == case["tail"]]
